@@ -29,6 +29,7 @@ type CaseC05 struct {
 	Calls  []SwitchCall           `json:"calls,omitempty"`
 	Value  map[string]interface{} `json:"value,omitempty"` // clause e: any JSON-shaped Map, any root shape
 	Root   string                 `json:"root,omitempty"`  // clause e: explicit root tag ("" = none)
+	Skip   int                    `json:"skip,omitempty"`  // clause b: a skip-tag function is set (1: true for every key, 2: for keys of even length); it only concerns casting
 }
 
 func init() { register("C05", checkC05) }
@@ -71,6 +72,7 @@ func genC05(t *rapid.T) CaseC05 {
 	case "b":
 		g := XGen{Opts: Opts{AttrPrefix: "-", KeyPrefix: "#", DecEscape: true}, MixedText: c.Enc < 2, Namespaces: c.Enc >= 2, TextGen: genEscStr}
 		c.Doc = g.Elem(t, rapid.IntRange(1, 3).Draw(t, "depth"))
+		c.Skip = rapid.SampledFrom([]int{0, 0, 1, 2}).Draw(t, "skipfn")
 	case "e":
 		gen := genMildStr
 		if rapid.Bool().Draw(t, "hostile") {
@@ -268,6 +270,13 @@ func checkC05(c CaseC05, info *Info) *Failure {
 				special = special || (it.Kind == kText && hasSpecial(it.Text))
 			}
 		})
+		switch c.Skip {
+		case 1:
+			mxj.SetCheckTagToSkipFunc(func(string) bool { return true })
+		case 2:
+			mxj.SetCheckTagToSkipFunc(func(k string) bool { return len(k)%2 == 0 })
+		}
+		info.ClassIf(c.Skip != 0, "skip-tag function set (must not matter without the cast flag)")
 		if c.Enc < 2 {
 			plain1, err := mxj.NewMapXml([]byte(doc))
 			if err != nil {
